@@ -15,11 +15,11 @@ import (
 	"runtime"
 	"sort"
 	"strings"
-	"sync"
 	"time"
 
 	. "verifharness/lib"
 
+	"github.com/ansible/receptor/pkg/logger"
 	"github.com/ansible/receptor/pkg/netceptor"
 )
 
@@ -127,6 +127,7 @@ func runHistory(im *Impl, r *Rng, h int, seed uint64) (string, string, bool) {
 	for i := 0; i < nconn; i++ {
 		conns = append(conns, fmt.Sprintf("c%d", i))
 	}
+	WaitGoroutinesAtMost(globalBase, 3*time.Second) // the previous history's node is gone
 	ctx, cancel := context.WithCancel(context.Background())
 	defer cancel()
 	n := netceptor.NewWithConsts(ctx, "self", 16384, time.Hour, time.Hour, time.Hour, 30, time.Hour)
@@ -135,8 +136,7 @@ func runHistory(im *Impl, r *Rng, h int, seed uint64) (string, string, bool) {
 		ch, _ := n.VerifAddConn(c, 1, 4096)
 		chans[c] = ch
 	}
-	time.Sleep(time.Millisecond)
-	base := runtime.NumGoroutine()
+	base := StableGoroutines(time.Second)
 	nm := &ids{m: map[string]uint64{"": 0, "self": 1}}
 	for _, c := range conns {
 		nm.id(c)
@@ -251,8 +251,11 @@ func runHistory(im *Impl, r *Rng, h int, seed uint64) (string, string, bool) {
 	return fmt.Sprintf("(CHist {| ac_conns := %s; ac_hist := %s |})", CoqList(cl), CoqList(hs)), label, sawCancelThenOld
 }
 
+var globalBase int
+
 func run(c *Ctx) {
 	QuietLogs()
+	globalBase = runtime.NumGoroutine()
 	im := NewImpl("C18", c.Seed, c.Tier)
 	im.Rule = "white-box histories of 1-25 advertisements/withdrawals (2-5 nodes x 2 services, timestamps 1..12 so that equal/older/newer and withdrawal-then-older all occur) delivered to one real node; non-trivial = the history contains an advertisement older than a withdrawal already delivered; mesh scenarios: non-trivial = at least one listener closed and one late joiner; distinct by full history"
 	cf := &CaseFile{Dir: c.Out, Prop: "C18", Imports: []string{"Model.Ads"}, CaseType: "c18_case", CheckFn: checkFn(), PerShard: 80}
@@ -279,6 +282,7 @@ func run(c *Ctx) {
 		cf.Add(term, label)
 		im.Count(label, nt)
 	}
+	periodicVsClose(c, im)
 	meshScenarios(c, im)
 	Must(cf.Write())
 	Must(im.Write(c.Out))
@@ -314,8 +318,6 @@ func meshScenarios(c *Ctx, im *Impl) {
 		delay := func(b []byte) ([][]byte, time.Duration) {
 			return [][]byte{b}, time.Duration(r.Intn(30)) * time.Millisecond // independent delays reorder messages
 		}
-		var mu sync.Mutex
-		_ = mu
 		connect := func(a, b string) {
 			l, err := m.Connect(a, b, 1)
 			if err == nil && r.Chance(70) {
@@ -405,6 +407,7 @@ func checkFn() string {
 // (older echoes, and forged newer ones) and about other nodes; step-exact against ad_step.
 func runLocalHistory(im *Impl, r *Rng, h int, seed uint64) (string, string, bool) {
 	conns := []string{"c0", "c1"}[:1+r.Intn(2)]
+	WaitGoroutinesAtMost(globalBase, 3*time.Second) // the previous history's node is gone
 	ctx, cancel := context.WithCancel(context.Background())
 	defer cancel()
 	n := netceptor.NewWithConsts(ctx, "self", 16384, time.Hour, time.Hour, time.Hour, 30, time.Hour)
@@ -413,8 +416,7 @@ func runLocalHistory(im *Impl, r *Rng, h int, seed uint64) (string, string, bool
 		ch, _ := n.VerifAddConn(c, 1, 4096)
 		chans[c] = ch
 	}
-	time.Sleep(time.Millisecond)
-	base := runtime.NumGoroutine()
+	base := StableGoroutines(time.Second)
 	nm := &ids{m: map[string]uint64{"": 0, "self": 1}}
 	for _, c := range conns {
 		nm.id(c)
@@ -518,4 +520,85 @@ func runLocalHistory(im *Impl, r *Rng, h int, seed uint64) (string, string, bool
 	label := fmt.Sprintf("local history seed=%d#%d kinds=%v", seed, h, kinds)
 	im.Hist("local-history")
 	return fmt.Sprintf("(CEv {| ec_conns := %s; ec_hist := %s |})", CoqList(cl), CoqList(hs)), label, echoAfterClose
+}
+
+// periodicVsClose: the periodic re-advertisement racing with listeners being closed, with a slow
+// log sink (every "Sending service advertisement" line costs 300 microseconds, as a busy log
+// destination would).  Model-independent oracle on the owner's OUTPUT: once the owner has sent
+// the withdrawal of a service (time tc), it never sends an advertisement of that service with a
+// time that is not older than tc — otherwise every other node lists the closed service again,
+// whatever the delivery order (C18 "a withdrawn service is never resurrected").
+func periodicVsClose(c *Ctx, im *Impl) {
+	logger.RegisterLogger(func(level int, format string, v ...interface{}) {
+		if strings.HasPrefix(format, "Sending service advertisement") {
+			time.Sleep(300 * time.Microsecond)
+		}
+	})
+	defer logger.RegisterLogger(nil)
+	r := c.Rng
+	rounds := 2
+	if c.Thorough() {
+		rounds = 10
+	}
+	for round := 0; round < rounds; round++ {
+		ctx, cancel := context.WithCancel(context.Background())
+		n := netceptor.NewWithConsts(ctx, "owner", 16384, time.Hour, 12*time.Millisecond, time.Hour, 30, time.Hour)
+		tap, _ := n.VerifAddConn("tap", 1, 1<<16)
+		open := map[string]netceptor.PacketConner{}
+		next := 0
+		for i := 0; i < 6; i++ {
+			name := fmt.Sprintf("p%d", next)
+			next++
+			if pc, err := n.ListenPacketAndAdvertise(name, map[string]string{"b": "1"}); err == nil {
+				open[name] = pc
+			}
+		}
+		deadline := time.Now().Add(600 * time.Millisecond)
+		closed := 0
+		for time.Now().Before(deadline) {
+			time.Sleep(time.Duration(200+r.Intn(2500)) * time.Microsecond)
+			for name, pc := range open {
+				_ = pc.Close()
+				delete(open, name)
+				closed++
+				break
+			}
+			name := fmt.Sprintf("p%d", next)
+			next++
+			if pc, err := n.ListenPacketAndAdvertise(name, map[string]string{"b": "1"}); err == nil {
+				open[name] = pc
+			}
+		}
+		time.Sleep(40 * time.Millisecond)
+		cancel()
+		cancelAt := map[string]time.Time{}
+		var ads []adMsg
+		for _, m := range Drain(tap) {
+			if len(m) == 0 || m[0] != netceptor.MsgTypeServiceAdvertisement {
+				continue
+			}
+			var am adMsg
+			if json.Unmarshal(m[1:], &am) != nil {
+				continue
+			}
+			if am.Cancel {
+				cancelAt[am.Service] = am.Time
+			} else {
+				ads = append(ads, am)
+			}
+		}
+		bad := 0
+		for _, a := range ads {
+			if tc, ok := cancelAt[a.Service]; ok && !a.Time.Before(tc) {
+				bad++
+				if bad == 1 {
+					im.Violate(fmt.Sprintf("the owner sent an advertisement of %s stamped %v although it withdrew the service at %v: every receiver lists the closed service again", a.Service, a.Time.Sub(tc), tc.Format("15:04:05.000000")),
+						"ad-not-older-than-own-withdrawal", map[string]interface{}{"service": a.Service})
+				}
+			}
+		}
+		im.Hist("periodic-vs-close:round")
+		im.Extra["periodic_ads_observed"] = len(ads)
+		im.Count(fmt.Sprintf("periodic-vs-close %d closed=%d ads=%d", round, closed, len(ads)), closed > 20 && len(ads) > 50)
+	}
 }
